@@ -19,4 +19,41 @@ ASSUME = ["the interestingness test sees only the file, its arguments and the pr
 
 
 def extra(ex, ck):
-    pass
+    """the PROCESS exit status and the file, through `python -m lithium` (main(), process_args, run)"""
+    from concurrent.futures import ThreadPoolExecutor
+    from realproc import run_lithium
+    data = b"a\nb\nc\nd\n"
+    jobs = [("N", []), ("Y", []), ("YNNY", []), ("YNNNNNNNNNNN", []), ("N", ["--strategy", "check-only"]),
+            ("Y", ["--strategy", "check-only"]), ("YYY", ["--strategy", "minimize-around"]), ("N", ["-c"]),
+            ("YN", ["--strategy=minimize-balanced", "-c"]), ("Y", ["--strategy", "check-only", "--testcase"])]
+    jobs = [j for j in jobs if "--testcase" not in j[1]]
+    with ThreadPoolExecutor(8) as pool:
+        results = list(pool.map(lambda j: run_lithium(data, j[0], j[1]), jobs))
+    for (verdicts, options), res in zip(jobs, results):
+        ck.count("process")
+        ck.nontrivial(("process", verdicts, tuple(options)))
+        tests = [x for x in res["log"] if x["ev"] == "test"]
+        first = tests[0]["ans"] if tests else None
+        later_yes = any(t["ans"] == "Y" for t in tests[1:])
+        check_only = "check-only" in options
+        bad = []
+        if first == "N" or check_only:
+            if len(tests) != 1:
+                bad.append(f"{len(tests)} tests ran, expected exactly 1")
+            if res["final"] != data:
+                bad.append("the testcase file changed")
+            if (res["rc"] == 0) != (check_only and first == "Y"):
+                bad.append(f"exit status {res['rc']}")
+        else:
+            if (res["rc"] == 0) != later_yes:
+                bad.append(f"exit status {res['rc']} but a later candidate accepted = {later_yes}")
+            want = data
+            for t in tests:
+                if t["ans"] == "Y":
+                    want = bytes.fromhex(t["data"])
+            if res["final"] != want:
+                bad.append(f"final file {res['final']!r} is not the last accepted version {want!r}")
+        if bad:
+            ck.violation(f"python -m lithium {options} with verdicts {verdicts}: " + "; ".join(bad),
+                         {"data": data.hex(), "verdicts": verdicts, "options": options, "rc": res["rc"],
+                          "stderr": res["stderr"]})
